@@ -342,7 +342,12 @@ func (w *Where) Transform() Query {
 		return NewWhere(q, e, w.t).Transform()
 	case *Summarize:
 		// split where before & after summarize
-		cols1 := q.source.Columns()
+		// only conditions on the by columns can move before the summarize
+		// (an output column may have the same name as a source column)
+		cols1 := q.by
+		if q.wholeRow {
+			cols1 = q.source.Columns()
+		}
 		var before, after []ast.Expr
 		for _, e := range w.expr.Exprs {
 			if set.HasSubset(cols1, e.Columns()) {
